@@ -21,7 +21,7 @@ RULE = ('trash-put of one symlink per case (to file, dir, nothing, another link,
         'slashes, reached through link, outcome)')
 ASSUMPTIONS = ["'link-to-file/' is ENOTDIR for the kernel: failing is legitimate there, following is not"]
 PROBES = ['cross-volume-fallback', 'link-trashed', 'trailing-slash-on-dirlink-trashed', 'legitimate-enotdir-refusal', 'target-other-volume', 'reached-through-link',
-          'restored-identical-link', 'dangling', 'chain', 'selfloop', 'with-force', 'with-interactive-yes']
+          'restored-identical-link', 'dangling', 'chain', 'selfloop', 'with-force', 'with-interactive-yes', 'link-given-after-its-own-target']
 TECHNIQUE = 'deterministic simulation of put and restore on generated symlink configurations; snapshot oracle on the link target, lstat/readlink of the payload, recorded location'
 LEVEL_TEXT = 'seeded exploration of link kinds x spellings x volumes; the target subtree must be snapshot-identical after every command'
 LEVEL_NOTE = 'trusted: snapshot function (readlink translated back to virtual paths), model decoder'
@@ -112,13 +112,17 @@ def gen(rng):
     # mode options must not change what the argument denotes: -f only silences names that do not exist at all, -i asks
     mode = rng.choice([[], [], ['-f'], ['-f', '-v'], ['-v'], ['-i'], ['--force'], ['-f', '-i']])
     putopts = mode + putopts
-    procs = [{'argv': ['trash-put'] + putopts + ['--', arg], 'env': env, 'cwd': home, 'uid': uid, 'stdin': 'y\ny\n'},
+    also = None
+    if kind in ('file', 'dir', 'chain', 'chain_dir') and rng.random() < 0.15 and '-i' not in putopts:
+        # the link's own target is given as an operand too, BEFORE the link: both are entries of their own
+        also = {'file': aux + '/tfile', 'dir': aux + '/tdir', 'chain': aux + '/hop', 'chain_dir': aux + '/hopd'}[kind]
+    procs = [{'argv': ['trash-put'] + putopts + ['--'] + ([also] if also else []) + [arg], 'env': env, 'cwd': home, 'uid': uid, 'stdin': 'y\ny\n'},
              {'argv': ['trash-restore', '--sort=path', '/'], 'env': env, 'cwd': '/', 'uid': uid, 'stdin': '?'}]
     return {
         'world': {'mounts': L['mounts'], 'steps': steps},
         'procs': procs,
         'dirsalt': rng.randrange(1 << 30),
-        'note': {'kind': kind, 'slashes': slashes, 'via': via},
+        'note': {'kind': kind, 'slashes': slashes, 'via': via, 'also_target': also},
     }
 
 
@@ -134,6 +138,40 @@ def outside(snap, loc, tds):
     return out
 
 
+def check_with_target(sim, case, st, put, files):
+    """trash-put TARGET LINK: the link is an entry of its own - it is trashed as a link (with its text) although what it
+    points to was trashed a moment before"""
+    mounts = OR.mounts_of(case)
+    snap0 = sim.snap()
+    nm_t = OP.name_entry(sim.root, put.get('cwd', '/'), files[0], snap0, mounts)
+    nm_l = OP.name_entry(sim.root, put.get('cwd', '/'), files[1], snap0, mounts)
+    if nm_t.kind != 'entry' or nm_l.kind != 'entry' or not (nm_l.ekind or '').startswith('symlink'):
+        return []
+    slashes = len(files[1]) - len(files[1].rstrip('/'))
+    if slashes:
+        return []       # once the target is gone 'link/' names nothing (ENOENT): refusing it is legitimate
+    text = snap0[nm_l.loc][1]
+    r = sim.run(put)
+    st.sims += 1
+    st.ops += r.nops
+    snap1 = sim.snap()
+    st.probes['link-given-after-its-own-target'] += 1
+    outs, _p = OP.judge(sim.root, snap0, snap1, [nm_t, nm_l], mounts)
+    res = []
+    ol = outs[1]
+    sig = '%s/after-its-target' % nm_l.ekind
+    if ol.state != 'trashed':
+        res.append(('C18/link-after-its-target-not-trashed/%s' % sig, 'trash-put %r: the link %r is in state %s %s (exit %s)\nstderr: %s'
+                    % (put['argv'], nm_l.loc, ol.state, ol.why, r.exit, r.errs[-400:])))
+    else:
+        pe = snap1.get(ol.tdir + '/files/' + ol.name)
+        if pe is None or pe[0] != 'l' or pe[1] != text:
+            res.append(('C18/payload-not-the-link/%s' % sig, 'payload is %r, expected a symlink to %r' % (pe, text)))
+        else:
+            st.probes['link-trashed'] += 1
+    return res
+
+
 def check(sim, case, st):
     procs = case['procs']
     if not procs or posixpath.basename(procs[0]['argv'][0]) != 'trash-put':
@@ -142,6 +180,9 @@ def check(sim, case, st):
     put = procs[0]
     from props.c01 import parse_args
     files = parse_args(put['argv'])
+    also = case.get('note', {}).get('also_target')
+    if also and len(files) == 2 and files[0] == also:
+        return check_with_target(sim, case, st, put, files)
     if len(files) != 1:
         return []
     mounts = OR.mounts_of(case)
